@@ -22,6 +22,29 @@ const (
 
 func ArraySort(k, v Sort) Sort { return Sort("(Array " + string(k) + " " + string(v) + ")") }
 
+// alias sorts: (define-sort alias () Int) used to keep heap components of different Go types apart.
+var aliasSorts = map[Sort]Sort{}
+
+// Base strips alias names from a sort.
+func (s Sort) Base() Sort {
+	if len(aliasSorts) == 0 {
+		return s
+	}
+	if b, ok := aliasSorts[s]; ok {
+		return b
+	}
+	str := string(s)
+	if !strings.Contains(str, ".") {
+		return s
+	}
+	for a, b := range aliasSorts {
+		if strings.Contains(str, string(a)) {
+			str = strings.ReplaceAll(str, string(a), string(b))
+		}
+	}
+	return Sort(str)
+}
+
 func (s Sort) IsArray() bool { return strings.HasPrefix(string(s), "(Array ") }
 
 // ArrayParts splits "(Array K V)" into K and V.
@@ -78,6 +101,13 @@ type TermStore struct {
 	fresh       int
 	axioms      map[string]*Term // global axioms keyed by the function symbol that triggers their inclusion
 	axiomOrder  []string
+	instAxioms  map[string]*InstAxiom // axioms of the form forall xs. body(f(xs)), instantiated at closed occurrences
+}
+
+type InstAxiom struct {
+	Vars []*Term
+	Body *Term
+	Pat  *Term
 }
 
 type RecFun struct {
@@ -89,7 +119,7 @@ type RecFun struct {
 }
 
 func NewTermStore() *TermStore {
-	return &TermStore{byKey: map[string]*Term{}, decls: map[string]string{}, datatypes: map[string]string{}, recFuns: map[string]*RecFun{}, axioms: map[string]*Term{}}
+	return &TermStore{byKey: map[string]*Term{}, decls: map[string]string{}, datatypes: map[string]string{}, recFuns: map[string]*RecFun{}, axioms: map[string]*Term{}, instAxioms: map[string]*InstAxiom{}}
 }
 
 var TS = NewTermStore()
@@ -360,7 +390,7 @@ func Eq(a, b *Term) *Term {
 	if a == b {
 		return True
 	}
-	if a.Sort != b.Sort {
+	if a.Sort != b.Sort && a.Sort.Base() != b.Sort.Base() {
 		panic(fmt.Sprintf("Eq sort mismatch: %s : %s vs %s : %s", a, a.Sort, b, b.Sort))
 	}
 	if isLit(a) && isLit(b) {
@@ -405,7 +435,7 @@ func isLit(t *Term) bool {
 }
 
 func intVal(t *Term) (int64, bool) {
-	if t.Sort != SInt {
+	if t.Sort != SInt && t.Sort.Base() != SInt {
 		return 0, false
 	}
 	if t.Op == "-" && len(t.Args) == 1 {
@@ -429,7 +459,7 @@ func Ite(c, a, b *Term) *Term {
 	if a == b {
 		return a
 	}
-	if a.Sort != b.Sort {
+	if a.Sort != b.Sort && a.Sort.Base() != b.Sort.Base() {
 		panic(fmt.Sprintf("Ite sort mismatch: %s vs %s (%s | %s)", a.Sort, b.Sort, a, b))
 	}
 	if a.Sort == SBool {
@@ -530,7 +560,7 @@ func Select(arr, idx *Term) *Term {
 
 func Store(arr, idx, val *Term) *Term {
 	_, v := arr.Sort.ArrayParts()
-	if val.Sort != v {
+	if val.Sort != v && val.Sort.Base() != v.Base() {
 		panic(fmt.Sprintf("Store sort mismatch: array %s value %s : %s", arr.Sort, val, val.Sort))
 	}
 	if arr.Op == "store" && arr.Args[1] == idx {
@@ -542,12 +572,51 @@ func Store(arr, idx, val *Term) *Term {
 // ConstArr builds ((as const (Array K V)) v).
 func ConstArr(s Sort, v *Term) *Term { return mk("constarr", s, v) }
 
-func Forall(vars []*Term, body *Term, pats ...[]*Term) *Term {
+func patOK(t *Term) bool {
+	switch t.Op {
+	case "ite", "and", "or", "not", "=>", "=", "forall", "exists", "<", "<=", "+", "-", "*":
+		return false
+	}
+	for _, a := range t.Args {
+		if !patOK(a) {
+			return false
+		}
+	}
+	return true
+}
+
+func Forall(vars []*Term, body *Term, pats0 ...[]*Term) *Term {
 	if body == True {
 		return True
 	}
 	if len(vars) == 0 {
 		return body
+	}
+	// keep only well-formed triggers: no connectives/arithmetic inside, every bound variable covered
+	var pats [][]*Term
+	for _, p := range pats0 {
+		ok := len(p) > 0
+		for _, q := range p {
+			if !patOK(q) {
+				ok = false
+			}
+		}
+		if ok {
+			for _, v := range vars {
+				found := false
+				for _, q := range p {
+					if mentions(q, v) {
+						found = true
+					}
+				}
+				if !found {
+					ok = false
+				}
+			}
+		}
+		if ok {
+			pats = append(pats, p)
+		}
 	}
 	t := &Term{Op: "forall", Args: []*Term{body}, Sort: SBool, Bound: vars, Pats: pats}
 	r := TS.intern(t)
@@ -569,6 +638,21 @@ func Exists(vars []*Term, body *Term) *Term {
 		r.flags |= flagHasBound
 	}
 	return r
+}
+
+func mentions(t, v *Term) bool {
+	if t == v {
+		return true
+	}
+	if t.flags&flagHasBound == 0 {
+		return false
+	}
+	for _, a := range t.Args {
+		if mentions(a, v) {
+			return true
+		}
+	}
+	return false
 }
 
 // containsFreeBound reports whether t mentions a bound variable not in vars.
@@ -721,7 +805,7 @@ func printTerm(sb *strings.Builder, t *Term, named map[int]string) {
 		sb.WriteString("((as const ")
 		sb.WriteString(string(t.Sort))
 		sb.WriteString(") ")
-		printTerm(sb, t.Args[0], named)
+		printTerm(sb, t.Args[0], nil) // cvc5 wants a syntactic value here
 		sb.WriteString(")")
 	case t.Op == "forall" || t.Op == "exists":
 		sb.WriteString("(")
@@ -764,7 +848,27 @@ func printTerm(sb *strings.Builder, t *Term, named map[int]string) {
 
 // Script renders an SMT-LIB script asserting all of `asserts`, hoisting shared closed subterms
 // into define-funs. Only the declarations actually used are emitted.
-func Script(asserts []*Term, preamble string, opts ScriptOpts) string {
+func Script(asserts0 []*Term, preamble string, opts ScriptOpts) string {
+	// top-level conjunctions (also under an implication guard) are split into separate assertions
+	var asserts []*Term
+	var split func(t *Term)
+	split = func(t *Term) {
+		switch {
+		case t.Op == "and":
+			for _, a := range t.Args {
+				split(a)
+			}
+		case t.Op == "=>" && t.Args[1].Op == "and":
+			for _, a := range t.Args[1].Args {
+				split(Implies(t.Args[0], a))
+			}
+		default:
+			asserts = append(asserts, t)
+		}
+	}
+	for _, a := range asserts0 {
+		split(a)
+	}
 	// reference counting over the DAG
 	refs := map[int]int{}
 	var order []*Term
@@ -819,7 +923,43 @@ func Script(asserts []*Term, preamble string, opts ScriptOpts) string {
 			}
 		}
 		for _, sym := range TS.axiomOrder {
-			if syms[sym] && !usedAx[sym] {
+			if !syms[sym] {
+				continue
+			}
+			if ia, ok := TS.instAxioms[sym]; ok {
+				// instantiate at closed applications found so far
+				needQuant := false
+				for _, t := range order {
+					if t.Op != sym || len(t.Args) != len(ia.Vars) {
+						continue
+					}
+					if t.flags&flagHasBound != 0 {
+						needQuant = true
+						continue
+					}
+					key := fmt.Sprintf("%s@%d", sym, t.id)
+					if usedAx[key] {
+						continue
+					}
+					usedAx[key] = true
+					m := map[int]*Term{}
+					for i, v := range ia.Vars {
+						m[v.id] = t.Args[i]
+					}
+					inst := Subst(ia.Body, m)
+					axiomTerms = append(axiomTerms, inst)
+					visit(inst)
+					ch = true
+				}
+				if needQuant && !usedAx[sym] {
+					usedAx[sym] = true
+					ch = true
+					axiomTerms = append(axiomTerms, TS.axioms[sym])
+					visit(TS.axioms[sym])
+				}
+				continue
+			}
+			if !usedAx[sym] {
 				usedAx[sym] = true
 				ch = true
 				axiomTerms = append(axiomTerms, TS.axioms[sym])
@@ -974,6 +1114,17 @@ func AddAxiom(symbol string, ax *Term) {
 	}
 	TS.axioms[symbol] = ax
 	TS.axiomOrder = append(TS.axiomOrder, symbol)
+}
+
+// AddInstAxiom registers forall vars. body with trigger pat = symbol(vars). Scripts instantiate it at every closed
+// application of symbol and keep the quantified form only if an application occurs under a binder.
+func AddInstAxiom(symbol string, vars []*Term, pat, body *Term) {
+	symbol = smtName(symbol)
+	if _, ok := TS.axioms[symbol]; ok {
+		return
+	}
+	TS.instAxioms[symbol] = &InstAxiom{Vars: vars, Body: body, Pat: pat}
+	AddAxiom(symbol, Forall(vars, body, []*Term{pat}))
 }
 
 // DefineDatatype registers a datatype declaration text under its sort name.
